@@ -60,18 +60,38 @@ Print Assumptions c17_preview_prefix.
 
 (* the output pump: it stores what the log writer stores, every chunk gets one delta frame carrying the
    append's range, so the ranges referenced by the output frames are consecutive, non-overlapping,
-   cover [0, stored) and name their chunk's bytes; the inline preview is truncate_utf8 of the chunk
-   (c17_preview_prefix) — for every chunking, cap and preview limit, 0 included *)
+   cover [0, stored) and name their chunk's bytes — for every chunking, cap and preview limit, 0
+   included *)
 Theorem c17_frame_ranges_tile : forall (cap plimit : N) (chunks : list bytes),
   let '(w, fs) := pump cap plimit chunks in
   w = fst (lw_run (lw_new cap) chunks)
   /\ map df_info fs = snd (lw_run (lw_new cap) chunks)
   /\ consecutive 0 (map range_of (map df_info fs))
   /\ tiles 0 (map range_of (map df_info fs)) = nlen (lw_file w)
-  /\ ranges_hold (lw_file w) (map df_info fs) chunks
-  /\ Forall2 (fun f c => df_preview f = fst (fst (truncate_utf8 c (N.min plimit OUTPUT_EVENT_MAX_BYTES)))) fs chunks.
+  /\ ranges_hold (lw_file w) (map df_info fs) chunks.
 Proof. exact pump_frames_tile. Qed.
 Print Assumptions c17_frame_ranges_tile.
+
+(* the inline previews of the delta frames: valid UTF-8 output, every read at least 3 bytes below the
+   per-frame limit min(max_bytes, 8192): the previews concatenate to the output exactly, however the
+   reads split multi-byte characters (S20 repaired: an incomplete character is carried to the next
+   frame) *)
+Theorem c17_delta_previews_exact : forall (cap plimit : N) (chunks : list bytes),
+  utf8_ok (concat chunks) = true ->
+  Forall (fun c => nlen c + 3 <= N.min plimit OUTPUT_EVENT_MAX_BYTES) chunks ->
+  concat (map df_preview (snd (pump cap plimit chunks))) = concat chunks.
+Proof. exact delta_previews_exact. Qed.
+Print Assumptions c17_delta_previews_exact.
+
+(* S20 — the pump that decodes every read on its own (the code before the repair): "éé" read as
+   1 + 3 bytes gives previews with U+FFFD.  The witness meets the hypotheses of the theorem above. *)
+Theorem c17_delta_previews_perchunk_refuted :
+  exists cap plimit chunks,
+    utf8_ok (concat chunks) = true
+    /\ Forall (fun c => nlen c + 3 <= N.min plimit OUTPUT_EVENT_MAX_BYTES) chunks
+    /\ concat (map df_preview (snd (pump_perchunk cap plimit chunks))) <> concat chunks.
+Proof. exact delta_previews_perchunk_refuted. Qed.
+Print Assumptions c17_delta_previews_perchunk_refuted.
 
 (* S17 — the pump before the repair (frame only when the preview is non-empty): with preview limit 0
    the frames' ranges do not cover the stored log.  Replayed on the real code, fixed in /repo. *)
